@@ -155,8 +155,8 @@ Proof.
   unfold run_once in Hr, Hr'.
   destruct (run_groups_spec s (s_groups s) (s_cloud s) Hn2 _ _ Hr) as (g1 & a1 & Hg1 & Hname1 & Hf1 & Hc1 & Hs1 & Ho1).
   destruct (run_groups_spec s' (s_groups s') (s_cloud s') Hn2' _ _ Hr') as (g2 & a2 & Hg2 & Hname2 & Hf2 & Hc2 & Hs2 & Ho2).
-  assert (g1 = g) by (symmetry; eapply group_by_name; eauto). subst g1.
-  assert (g2 = g) by (symmetry; eapply group_by_name; eauto). subst g2.
+  assert (g1 = g) by (symmetry; exact (group_by_name (s_groups s) g g1 Hn1 Hg Hg1 Hname1)). subst g1.
+  assert (g2 = g) by (symmetry; exact (group_by_name (s_groups s') g g2 Hn1' Hg' Hg2 Hname2)). subst g2.
   rewrite Hasg in Hf1. rewrite Hf1 in Hf2. inversion Hf2; subst a2.
   rewrite (group_scan_isolated s s' g a1 Hnow Hdry Hnodes Hpods Hapi) in Hc1, Hs1, Ho1.
   rewrite Hc1, Hc2, Hs1, Hs2, Ho1, Ho2. auto.
